@@ -4,7 +4,7 @@ import json
 from .. import common, driver_gen
 from ..common import Report, MachineryError, SPEC
 
-N = {"quick": 200, "thorough": 6000}
+N = {"quick": 400, "thorough": 8000}
 
 
 def _validate(lines, rep):
@@ -31,11 +31,11 @@ def run(tier):
     mon = _validate(lines, rep)
     rep.traces, rep.evaluations = mon.traces, mon.counters.get("pipelines", 0)
     rep.extra["situations"] = mon.counters
-    rep.nontrivial = sum(1 for ln in lines if ln[0].get("kind") == "pair" or len(ln[0].get("events", [])) >= 2)
+    rep.nontrivial = sum(1 for ln in lines if ln[0].get("kind") == "pair" or len(ln) >= 4)
     rep.rule = ("WorkloadGenerator run tick by tick for random parameter sets (probability triples incl. zeros, num_pipelines, num_operators, waiting mean from below one "
                 "tick to minutes, cpu_io_ratio in [0,1], tick rates 1..100000) with a logging RNG proxy; non-trivial = at least two arrival events, or a ratio pair")
-    ex = next(ln[0] for ln in lines if ln[0].get("kind") == "run" and ln[0]["events"])
-    rep.samples.append({"params": {k: ex[k] for k in ("tps", "num_pipelines", "num_operators", "probs", "ratio", "mean_ticks")}, "first_event": ex["events"][0]})
+    ex = next(ln for ln in lines if ln[0].get("kind") == "hdr" and len(ln) >= 3)
+    rep.samples.append({"params": {k: ex[0][k] for k in ("tps", "num_pipelines", "num_operators", "probs", "ratio", "mean_ticks")}, "first_event": ex[1]})
     c = mon.counters
     if c.get("events_undecidable_call_pattern", 0):
         print(f"DRIFT: {c['events_undecidable_call_pattern']} arrival events used an RNG call pattern the specification does not know; draw-argument clauses were not decided for them (structure and ratio-pair clauses were)")
@@ -52,7 +52,8 @@ def replay(path):
     rep = Report("C15", "quick")
     common.import_repo()
     f = driver_gen.pair_case if rp.get("kind") == "gen:pair" else driver_gen.run_case
-    mon = _validate([[f(rp["seed"], 0)]], rep)
+    res = f(rp["seed"], 0)
+    mon = _validate([res if isinstance(res, list) else [res]], rep)
     for v in mon.viols[:10]:
         print("  ", json.dumps(v)[:300])
     return 1 if rep.violations else 0
